@@ -282,6 +282,11 @@ def build(name, seed):
         M2[M2.sum(axis=1) == 0, -1] = 1.0
         vecs = c.np.normal(size=(m, d))
         metric = r.choice(["cosine", "euclidean", "euclidean"])
+        if name != "ApproximateWassersteinVectorizer" and (c.seed // 3) % 2 == 1:
+            # the metric given as a callable (the documented alternative to its name); vectors of unequal norms
+            from pynndescent import distances as _pd
+            metric = _pd.cosine if (c.seed // 6) % 2 == 0 else _pd.euclidean
+            c.notes.append("metric passed as callable")
         c.exact = False
         c.fit_kw = {"vectors": vecs}
         if name == "WassersteinVectorizer":
